@@ -45,8 +45,51 @@ Perms(S, k) == IF k = 0 THEN {<<>>} ELSE UNION {{Append(p, x) : x \in S \ Range(
 ReqLists == UNION {{<<0>> \o p : p \in Perms(1 .. NG - 1, k)} : k \in 0 .. NG - 1}
 
 \* ---- the concrete source font of a case (all values are the generator's choice, printed in CASE) ---
-Dx(g, k) == 64 * g + 16 * k
-Dy(g, k) == 0 - (9 * g + 3 * k)
+\* Component records.  Which template component k of glyph g gets depends on the whole case (graph
+\* position, length of the requested list, numberOfHMetrics), so that over the cases of a run every
+\* (glyph, slot) meets every template: all transform kinds (none, scale, x/y scale, two by two with
+\* asymmetric off-diagonal terms, negative and extreme F2Dot14 values), both argument widths (bytes on
+\* the int8 boundaries, words also where bytes would do, int16 extremes), point-number arguments
+\* (ARGS_ARE_XY_VALUES clear), ROUND_XY_TO_GRID, USE_MY_METRICS, OVERLAP_COMPOUND, (UN)SCALED_COMPONENT_OFFSET.
+\* args: "b" int8 on the boundaries, "w" words with word-sized values, "s" words with byte-sized values,
+\*       "x" int16 extremes, "p" / "q" point numbers as bytes / words
+Templates == <<
+  [fl |-> 2,                 args |-> "b", tr |-> <<>>],
+  [fl |-> 2 + 4,             args |-> "s", tr |-> <<>>],
+  [fl |-> 2 + 8,             args |-> "b", tr |-> <<8192>>],
+  [fl |-> 2 + 8 + 512,       args |-> "w", tr |-> <<-16384>>],
+  [fl |-> 2 + 64,            args |-> "b", tr |-> <<16384, -8192>>],
+  [fl |-> 2 + 64 + 4096,     args |-> "w", tr |-> <<-24576, 32767>>],
+  [fl |-> 2 + 128,           args |-> "b", tr |-> <<16384, 8192, 0, 16384>>],
+  [fl |-> 2 + 128 + 1024,    args |-> "w", tr |-> <<0, 16384, -16384, 0>>],
+  [fl |-> 2 + 128 + 2048,    args |-> "s", tr |-> <<-16310, -1, 0, -16384>>],
+  [fl |-> 2 + 128 + 4,       args |-> "x", tr |-> <<32767, -32768, 4660, -4660>>],
+  [fl |-> 0,                 args |-> "p", tr |-> <<>>],
+  [fl |-> 0 + 8,             args |-> "q", tr |-> <<12288>>],
+  [fl |-> 2 + 128 + 512,     args |-> "w", tr |-> <<8192, 4096, 4096, 8192>>],
+  [fl |-> 2 + 1024 + 4096,   args |-> "x", tr |-> <<>>] >>
+NT == Len(Templates)
+TemplateOf(g, k, r, h) == Templates[((5 * g + 3 * k + Len(r) + 2 * h) % NT) + 1]
+
+\* arguments, distinct for every (glyph, slot): int8 values from -128 and 127 inwards, words from -129 and 128 outwards
+Even(g, k) == (g + k) % 2 = 0
+ArgSmall1(g, k) == IF Even(g, k) THEN 129 - 3 * g - k ELSE 3 * g + k - 129
+ArgSmall2(g, k) == 0 - (9 * g + 3 * k)
+ArgWord1(g, k) == IF Even(g, k) THEN 0 - (97 + 64 * g + 16 * k) ELSE 112 + 64 * g + 16 * k
+ArgWord2(g, k) == 300 + 9 * g + 3 * k
+MkComp(t, g, k, tp) ==
+  [g  |-> t, fl |-> tp.fl, tr |-> tp.tr,
+   w  |-> tp.args \in {"w", "s", "x", "q"},
+   a1 |-> IF tp.args \in {"b", "s"} THEN ArgSmall1(g, k)
+          ELSE IF tp.args = "w" THEN ArgWord1(g, k)
+          ELSE IF tp.args = "x" THEN (IF Even(g, k) THEN 32767 - g ELSE g - 32768)
+          ELSE IF tp.args = "p" THEN (g + k) % 4 ELSE 256 + g,
+   a2 |-> IF tp.args \in {"b", "s"} THEN ArgSmall2(g, k)
+          ELSE IF tp.args = "w" THEN ArgWord2(g, k)
+          ELSE IF tp.args = "x" THEN (IF Even(g, k) THEN k - 32768 ELSE 32767 - k)
+          ELSE IF tp.args = "p" THEN k ELSE 2 + k]
+\* instructions: on two of three non-empty glyphs of a case (composites: WE_HAVE_INSTRUCTIONS on the last component)
+InstrOf(g, r, h) == IF (g + Len(r) + h) % 3 = 0 THEN <<>> ELSE <<176, g, 177, Len(r), h, 33>>
 AdvVal(k) == 500 + 10 * k
 LsbVal(g) == 3 * g - 4
 EmptyRule(g, r, h) == (2 * g + Len(r) + h) % 7 = 6
@@ -56,7 +99,8 @@ MkSrc(gr, r, h) ==
    kind  |-> [i \in 1 .. NG |-> IF gr[i] # <<>> THEN "composite"
                                 ELSE IF EmptyRule(i - 1, r, h) THEN "empty" ELSE "simple"],
    shape |-> [i \in 1 .. NG |-> i - 1],
-   comp  |-> [i \in 1 .. NG |-> [k \in 1 .. Len(gr[i]) |-> [g |-> gr[i][k], dx |-> Dx(i - 1, k), dy |-> Dy(i - 1, k)]]],
+   comp  |-> [i \in 1 .. NG |-> [k \in 1 .. Len(gr[i]) |-> MkComp(gr[i][k], i - 1, k, TemplateOf(i - 1, k, r, h))]],
+   instr |-> [i \in 1 .. NG |-> IF gr[i] = <<>> /\ EmptyRule(i - 1, r, h) THEN <<>> ELSE InstrOf(i - 1, r, h)],
    nhm   |-> h,
    long  |-> [k \in 1 .. h |-> [adv |-> AdvVal(k - 1), lsb |-> LsbVal(k - 1)]],
    tail  |-> [j \in 1 .. NG - h |-> LsbVal(h + j - 1)]]
@@ -114,15 +158,31 @@ DoneOK ==
     /\ SubsetGlyf(src, req) = [recs |-> s.recs, out |-> out]     \* small steps = the run operators the judge uses
     /\ out.nhm = out.n
 
-DesignOK == LoopOK /\ GlyfOK /\ HmtxOK /\ DoneOK
+\* the generator's fonts are fonts: every component record is one a file can hold
+SrcOK == \A i \in 1 .. NG : \A k \in 1 .. Len(src.comp[i]) : WellFormedComp(src.comp[i][k])
+
+\* a retained composite keeps every component field except the renumbered glyph id; stated on the
+\* written font at the end, and on the worklist records (which carry only the ids) all along
+KeptOK ==
+  pc = "done" =>
+    \A n \in 0 .. out.n - 1 :
+      LET o == OldId(s.recs, n) IN
+      /\ RecordKept(src, out, n, o)
+      /\ \A k \in 1 .. Len(src.comp[o + 1]) :
+           /\ out.comp[n + 1][k].w = src.comp[o + 1][k].w                      \* Dev_ArgWidth, the machine's choice
+           /\ OldId(s.recs, out.comp[n + 1][k].g) = src.comp[o + 1][k].g       \* the one field that changes
+
+DesignOK == SrcOK /\ LoopOK /\ GlyfOK /\ HmtxOK /\ DoneOK /\ KeptOK
 
 \* ---- CASE lines --------------------------------------------------------------------
 RECURSIVE SortSet(_)
 SortSet(S) == IF S = {} THEN <<>> ELSE LET m == MinOf(S) IN <<m>> \o SortSet(S \ {m})
 
-FlatJson(r) == IF r.ok THEN r.ls ELSE << <<-1, 0, 0>> >>
-\* what the property prescribes for the new glyph that stands for old glyph o (stated on the SOURCE)
-Prescribed(o) == <<FlatJson(Outline(src, o)), AdvOf(src, o), LsbOf(src, o)>>
+FlatJson(r) == IF r.ok THEN r.ls ELSE << <<-1, <<>> >> >>
+\* what the property prescribes for the new glyph that stands for old glyph o (stated on the SOURCE):
+\* flattened outline, advance, lsb, and the record's own placements (component fields but the id) and instructions
+Prescribed(o) == <<FlatJson(Outline(src, o)), AdvOf(src, o), LsbOf(src, o),
+                   <<PlacementsOf(src.comp[o + 1]), src.instr[o + 1]>> >>
 
 Case ==
   [n     |-> NG,
@@ -130,7 +190,10 @@ Case ==
    adv   |-> [k \in 1 .. src.nhm |-> src.long[k].adv],
    lsb   |-> [g \in 1 .. NG |-> LsbOf(src, g - 1)],
    empty |-> SortSet({g \in Ids : src.kind[g + 1] = "empty"}),
-   comp  |-> [i \in 1 .. NG |-> [k \in 1 .. Len(src.comp[i]) |-> <<src.comp[i][k].g, src.comp[i][k].dx, src.comp[i][k].dy>>]],
+   \* component: <<glyph id, flags (CompSem bits), ARG_1_AND_2_ARE_WORDS, argument 1, argument 2, transform>>
+   comp  |-> [i \in 1 .. NG |-> [k \in 1 .. Len(src.comp[i]) |->
+                LET c == src.comp[i][k] IN <<c.g, c.fl, IF c.w THEN 1 ELSE 0, c.a1, c.a2, c.tr>>]],
+   instr |-> src.instr,
    req   |-> req,
    exp   |-> [n     |-> Len(s.recs),
               head  |-> [i \in 1 .. Len(req) |-> Prescribed(req[i])],
